@@ -4,6 +4,7 @@ package main
 // discharge of obligations.
 
 import (
+	"runtime"
 	"go/ast"
 	"fmt"
 	"go/token"
@@ -524,6 +525,13 @@ func (o *Obligation) queryVariant(dropQuantified bool) string {
 }
 
 
+// allSolvers: race all three solvers (set for the retry pass and by the developer command)
+var allSolvers bool
+
+// twoSolverFirstPass: measured and rejected - z3 4.8.12 is the only solver that decides some
+// of the quantified index obligations quickly, so all three race from the start
+const twoSolverFirstPass = false
+
 func discharge(o *Obligation, outDir string, timeoutS int) *OblResult {
 	r := &OblResult{O: o}
 	if o.Structural {
@@ -587,7 +595,13 @@ func discharge(o *Obligation, outDir string, timeoutS int) *OblResult {
 		// products as an uninterpreted function: fewer facts, unsat still valid
 		variants = append(variants, queryVariant{"ufmul", strings.Replace(q, mulDef, mulUF, 1), false})
 	}
-	sr := solve(outDir, o.Name, variants, timeoutS)
+	// first pass: the two solvers that decide almost everything; the retry pass (and the
+	// thorough tier) races all three
+	var firstPass []string
+	if twoSolverFirstPass && !allSolvers && !thoroughMode {
+		firstPass = []string{"z3-5.1.0", "cvc5-1.0.3"}
+	}
+	sr := solveOn(outDir, o.Name, variants, timeoutS, firstPass)
 	r.Solver, r.Ms, r.Output, r.AllStat = sr.Solver, sr.Ms, sr.Output, sr.All
 	r.Second, r.Clash = sr.Second, sr.Clash
 	if sr.Clash != "" && sr.Status == "unsat" {
@@ -647,6 +661,11 @@ func discharge(o *Obligation, outDir string, timeoutS int) *OblResult {
 	return r
 }
 
+// oblSem bounds the number of obligations in flight (not the number of solver
+// processes): all solvers and variants of one obligation start together, so the
+// solver that decides it fastest runs at once and its answer cancels the others.
+var oblSem = make(chan struct{}, maxInt(2, runtime.NumCPU()*5/8))
+
 func dischargeAll(obls []*Obligation, outDir string, timeoutS int) []*OblResult {
 	res := make([]*OblResult, len(obls))
 	var wg sync.WaitGroup
@@ -654,6 +673,8 @@ func dischargeAll(obls []*Obligation, outDir string, timeoutS int) []*OblResult 
 		wg.Add(1)
 		go func(i int, o *Obligation) {
 			defer wg.Done()
+			oblSem <- struct{}{}
+			defer func() { <-oblSem }()
 			res[i] = discharge(o, outDir, timeoutS)
 		}(i, o)
 	}
